@@ -367,8 +367,21 @@ func main() {
 	stage.Store("shutdown")
 	res := &scn.Result{}
 	res.AtShutdownCall = rec.len()
+	extra := make([]int, sc.ExtraShutdownCallers)
+	var extraWg sync.WaitGroup
+	for i := range extra {
+		extraWg.Add(1)
+		go func(i int) {
+			defer extraWg.Done()
+			time.Sleep(time.Duration(i*150) * time.Microsecond)
+			log.Shutdown()
+			extra[i] = rec.len()
+		}(i)
+	}
 	log.Shutdown()
 	res.AtShutdownReturn = rec.len()
+	extraWg.Wait()
+	res.ExtraShutdownReturns = extra
 	stage.Store("after shutdown")
 	time.Sleep(200 * time.Millisecond)
 	res.After200ms = rec.len()
